@@ -43,7 +43,7 @@ theorem rJoinPc_iff (c : CPc) : rJoinPc c = true ↔ (c = .rPutNone ∨ c = .rSt
 /-- the consumer's part, clause by clause -/
 theorem ConsI_gen (h : ConsI s) (e1 : t.cur = s.cur) (e2 : t.buffer = s.buffer) (e3 : t.wf = s.wf) (e4 : t.cfg = s.cfg)
     (k1 : setupPc t.cpc = true → setupPc s.cpc = true)
-    (k2 : exitPc t.cpc = true → exitPc s.cpc = true)
+    (k2 : exitPhasePc t.cpc = true → exitPhasePc s.cpc = true)
     (k3 : t.woken = true → cIn t.cpc = true)
     (tk : getPathPc t.cpc = true → t.batch = [] → t.woken = false → t.fpc = .idle → t.finished = t.fTotal → none ∈ t.resQ)
     (k5 : loopPc t.cpc = true → flowChk t.cpc = false → (t.fRun = false ∨ t.cpc = .flowClear) → bufferFull s = true)
@@ -61,7 +61,7 @@ theorem ConsI_gen (h : ConsI s) (e1 : t.cur = s.cur) (e2 : t.buffer = s.buffer) 
 /-- the consumer's part of the invariant along a step that changes (essentially) only the pc -/
 theorem ConsI_move (h : ConsI s) (e : SameC s t)
     (k1 : setupPc t.cpc = true → setupPc s.cpc = true)
-    (k2 : exitPc t.cpc = true → exitPc s.cpc = true)
+    (k2 : exitPhasePc t.cpc = true → exitPhasePc s.cpc = true)
     (k3 : cIn s.cpc = true → cIn t.cpc = true)
     (k4 : getPathPc t.cpc = true → s.batch = [] → s.woken = false → s.fpc = .idle → s.finished = s.fTotal →
       getPathPc s.cpc = true)
@@ -85,7 +85,7 @@ theorem Rest_move (pr : ProcI s) (rp : ReplI s) (ct : CntI s) (e : SameR s t)
     (a2 : idxV t.cpc s.procs.length)
     (a3 : rCall t.cpc = true → s.cfg.factory = true → rCall s.cpc = true ∨ s.rAlive = true)
     (a4 : rStopping t.cpc = rStopping s.cpc)
-    (a5 : exitPc t.cpc = exitPc s.cpc) (a6 : rJoinPc t.cpc = true → rJoinPc s.cpc = true ∨ s.cfg.factory = true)
+    (a5 : exitPhasePc t.cpc = exitPhasePc s.cpc) (a6 : rJoinPc t.cpc = true → rJoinPc s.cpc = true ∨ s.cfg.factory = true)
     (a7 : stopsV t.cpc s.procs.length = stopsV s.cpc s.procs.length) : ProcI t ∧ ReplI t ∧ CntI t := by
   refine ⟨ProcI_congr pr e.procs e.workers e.cfg (by rw [e.rpc]; exact fun _ h => h) a2,
     ReplI_congr rp e.cfg e.rAlive e.rpc e.replQ e.workers e.procs (fun _ => hq') a3 a4 a5 ?_,
@@ -101,7 +101,7 @@ theorem LiveInv_move (hV : LiveInv s) (e : SameC s t) (el : t.lock = s.lock) (eq
     (a1 : cIn t.cpc = cIn s.cpc) (a2 : idxV t.cpc s.procs.length)
     (a3 : rCall t.cpc = true → s.cfg.factory = true → rCall s.cpc = true ∨ s.rAlive = true)
     (a4 : rStopping t.cpc = rStopping s.cpc)
-    (a5 : exitPc t.cpc = exitPc s.cpc) (a6 : rJoinPc t.cpc = true → rJoinPc s.cpc = true ∨ s.cfg.factory = true)
+    (a5 : exitPhasePc t.cpc = exitPhasePc s.cpc) (a6 : rJoinPc t.cpc = true → rJoinPc s.cpc = true ∨ s.cfg.factory = true)
     (a7 : stopsV t.cpc s.procs.length = stopsV s.cpc s.procs.length)
     (k1 : setupPc t.cpc = true → setupPc s.cpc = true)
     (k4 : getPathPc t.cpc = true → s.batch = [] → s.woken = false → s.fpc = .idle → s.finished = s.fTotal →
@@ -120,7 +120,7 @@ theorem LiveInv_of (hV : LiveInv s) (e : SameR s t)
     (a2 : idxV t.cpc s.procs.length)
     (a3 : rCall t.cpc = true → s.cfg.factory = true → rCall s.cpc = true ∨ s.rAlive = true)
     (a4 : rStopping t.cpc = rStopping s.cpc)
-    (a5 : exitPc t.cpc = exitPc s.cpc) (a6 : rJoinPc t.cpc = true → rJoinPc s.cpc = true ∨ s.cfg.factory = true)
+    (a5 : exitPhasePc t.cpc = exitPhasePc s.cpc) (a6 : rJoinPc t.cpc = true → rJoinPc s.cpc = true ∨ s.cfg.factory = true)
     (a7 : stopsV t.cpc s.procs.length = stopsV s.cpc s.procs.length)
     (hlk : LockI t) (hcs : ConsI t) : LiveInv t := by
   obtain ⟨h1, h2, h3⟩ := Rest_move hV.pr hV.rp hV.ct e hq hq' a2 a3 a4 a5 a6 a7
@@ -198,12 +198,12 @@ theorem Rest_afterResults {s0 : St} (pr : ProcI s) (rp : ReplI s) (ct : CntI s) 
   apply Rest_move pr rp ct e' (by rw [hq]) (by rw [hq]; exact id)
   all_goals
     rcases hcl with h | h | h <;> rw [h] <;> cases hcp : s.cpc <;>
-      simp [hcp, getPathPc, idxV, rCall, rStopping, exitPc, rJoinPc, stopsV] at hgp ⊢
+      simp [hcp, getPathPc, idxV, rCall, rStopping, exitPhasePc, rJoinPc, stopsV] at hgp ⊢
 
 /-! ### the next call, or `__exit__` -/
 
-theorem stopsV_of_not_exit {c : CPc} (h : exitPc c = false) (n : Nat) : stopsV c n = 0 := by
-  cases c <;> simp [exitPc, stopsV] at h ⊢
+theorem stopsV_of_not_exit {c : CPc} (h : exitPhasePc c = false) (n : Nat) : stopsV c n = 0 := by
+  cases c <;> simp [exitPhasePc, stopsV] at h ⊢
 
 theorem noneCount_eq_zero {q : List (Option Nat)} (h : none ∉ q) : noneCount q = 0 := by
   unfold noneCount
@@ -213,7 +213,7 @@ theorem noneCount_eq_zero {q : List (Option Nat)} (h : none ∉ q) : noneCount q
   | none => exact absurd ha h
   | some i => simp
 
-theorem LiveInv_toNextCall (hV : LiveInv s) (h1 : cIn s.cpc = false) (h2 : exitPc s.cpc = false)
+theorem LiveInv_toNextCall (hV : LiveInv s) (h1 : cIn s.cpc = false) (h2 : exitPhasePc s.cpc = false)
     (h3 : ¬ (rStopping s.cpc = true ∧ s.rAlive = true)) : LiveInv (toNextCall s) := by
   obtain ⟨lk, pr, rp, cs, ct⟩ := hV
   have hwk : s.woken = false := by
@@ -230,10 +230,10 @@ theorem LiveInv_toNextCall (hV : LiveInv s) (h1 : cIn s.cpc = false) (h2 : exitP
       cases hf : s.cfg.factory <;> simp
     generalize (if s.cfg.factory = true then CPc.rInitSet else CPc.fInitSet) = c' at hc'
     have hc' := hc' c' rfl
-    have hcls : cIn c' = false ∧ exitPc c' = false ∧ rStopping c' = false ∧ rJoinPc c' = false ∧ setupPc c' = true ∧
+    have hcls : cIn c' = false ∧ exitPhasePc c' = false ∧ rStopping c' = false ∧ rJoinPc c' = false ∧ setupPc c' = true ∧
         getPathPc c' = false ∧ loopPc c' = false ∧ runSetPc c' = false ∧ idxV c' s.procs.length ∧
         stopsV c' s.procs.length = 0 := by
-      rcases hc' with ⟨h, _⟩ | ⟨h, _⟩ <;> subst h <;> simp [cIn, exitPc, rStopping, rJoinPc, setupPc, getPathPc, loopPc, runSetPc, idxV, stopsV]
+      rcases hc' with ⟨h, _⟩ | ⟨h, _⟩ <;> subst h <;> simp [cIn, exitPhasePc, rStopping, rJoinPc, setupPc, getPathPc, loopPc, runSetPc, idxV, stopsV]
     obtain ⟨q1, q2, q3, q4, q5, q6, q7, q8, q9, q10⟩ := hcls
     refine ⟨LockI_congr lk rfl (by rw [h1]; exact q1) rfl, ProcI_congr pr rfl rfl rfl (fun _ h => h) q9, ?_, ?_,
       CntI_congr' ct rfl rfl rfl rfl rfl (by rw [h2]; exact q2) (by unfold stopsSent; rw [hst]; exact q10)⟩
@@ -256,7 +256,7 @@ theorem LiveInv_toNextCall (hV : LiveInv s) (h1 : cIn s.cpc = false) (h2 : exitP
         rw [q4] at this; cases this
     · constructor
       · intro _; rfl
-      · intro hh; have : exitPc c' = true := hh; rw [q2] at this; cases this
+      · intro hh; have : exitPhasePc c' = true := hh; rw [q2] at this; cases this
       · intro hh; cases hh
       · intro hh; have : getPathPc c' = true := hh; rw [q6] at this; cases this
       · show (0 : Nat) ∉ ([] : List Nat); simp
@@ -271,11 +271,11 @@ theorem LiveInv_toNextCall (hV : LiveInv s) (h1 : cIn s.cpc = false) (h2 : exitP
       · simp [hf]; omega
     generalize (if s.procs.length = 0 then CPc.done else CPc.exitPut 0) = c' at hc'
     have hc' := hc' c' rfl
-    have hcls : cIn c' = false ∧ exitPc c' = true ∧ rStopping c' = false ∧ rJoinPc c' = false ∧ setupPc c' = false ∧
+    have hcls : cIn c' = false ∧ exitPhasePc c' = true ∧ rStopping c' = false ∧ rJoinPc c' = false ∧ setupPc c' = false ∧
         getPathPc c' = false ∧ loopPc c' = false ∧ runSetPc c' = false ∧ idxV c' s.procs.length ∧
         stopsV c' s.procs.length = 0 ∧ rCall c' = false := by
       rcases hc' with ⟨h, h0⟩ | ⟨h, h0⟩ <;> subst h <;>
-        simp [cIn, exitPc, rStopping, rJoinPc, setupPc, getPathPc, loopPc, runSetPc, idxV, stopsV, rCall, h0]
+        simp [cIn, exitPhasePc, rStopping, rJoinPc, setupPc, getPathPc, loopPc, runSetPc, idxV, stopsV, rCall, h0]
     obtain ⟨q1, q2, q3, q4, q5, q6, q7, q8, q9, q10, q11⟩ := hcls
     refine ⟨LockI_congr lk rfl (by rw [h1]; exact q1) rfl, ProcI_congr pr rfl rfl rfl (fun _ h => h) q9, ?_, ?_, ?_⟩
     · constructor
@@ -284,7 +284,7 @@ theorem LiveInv_toNextCall (hV : LiveInv s) (h1 : cIn s.cpc = false) (h2 : exitP
       · show noneCount s.replQ = _
         rw [htok, q3]; simp
       · intro x hx hxpc hxin; exact Or.inl q2
-      · intro hh; have : exitPc c' = false := hh; rw [q2] at this; cases this
+      · intro hh; have : exitPhasePc c' = false := hh; rw [q2] at this; cases this
       · intro hh
         have := (rJoinPc_iff c').2 hh
         rw [q4] at this; cases this
